@@ -178,9 +178,20 @@ func runC13(res *lp.Result) {
 		if c.name == "varint" {
 			back := new(big.Int)
 			wasNull, err := c.codec.Decode(enc, back, v4)
-			if prevBack != nil && prevBack.Cmp(prevCopy) != 0 {
-				res.Add(lp.Finding{Kind: "violation", What: "number handed out by an earlier varint Decode changes when another value is decoded",
-					Input: fmt.Sprintf("decode varint %s into *big.Int, then decode %x into another *big.Int", prevId, enc), Impl: prevBack.String(), Model: prevCopy.String()})
+			if prevBack != nil {
+				// (a number whose digits were overwritten behind its back may not even be a well-formed big.Int any more)
+				now := func() (s string) {
+					defer func() {
+						if r := recover(); r != nil {
+							s = "not a well-formed number any more: " + fmt.Sprint(r)
+						}
+					}()
+					return prevBack.String()
+				}()
+				if now != prevCopy.String() {
+					res.Add(lp.Finding{Kind: "violation", What: "number handed out by an earlier varint Decode changes when another value is decoded",
+						Input: fmt.Sprintf("decode varint %s into *big.Int, then decode %x into another *big.Int", prevId, enc), Impl: now, Model: prevCopy.String()})
+				}
 			}
 			prevBack, prevCopy, prevId = nil, nil, ""
 			if err == nil && !wasNull {
